@@ -134,7 +134,18 @@ func genDriver(rng *rand.Rand, heights int, lean bool) script {
 			}
 		}
 		if lookahead && rng.IntN(3) == 0 {
-			g.entryKind(h+1, ePrevote, 0)
+			// a faster peer's message for a later height - usually the next one, sometimes two or
+			// three ahead (the heights in between may never get an entry before they are pruned)
+			ahead := uint64(1)
+			if rng.IntN(3) == 0 {
+				ahead = 2 + uint64(rng.IntN(2))
+			}
+			g.entryKind(h+ahead, []int{ePrevote, eProp}[rng.IntN(2)], 0)
+		}
+		if heights > 256 && (i%256 >= 250 || i%256 <= 4) && rng.IntN(2) == 0 {
+			// around the 256th prune record (when obsolete log files are removed): an early message for a
+			// height two or three ahead, while the heights in between have no entry yet
+			g.entryKind(h+2+uint64(rng.IntN(2)), eProp, 0)
 		}
 		if h > lag {
 			g.del(h - lag)
